@@ -130,6 +130,18 @@ inductive XStmt where
   | clearStop       -- self.shouldStop = False
   | resetClock      -- self.__now = None
   | setStarted      -- self._started = True
+  -- `__init__`
+  | superInit       -- super().__init__([decorated])
+  | controlInit     -- TestControl.__init__(self)
+  | clearStarted    -- self._started = False
+  -- `_implied_start` (a run that was not started with startTestRun())
+  | saveState       -- tags, now = self._tags, self.__now
+  | callStartTestRun  -- self.startTestRun()
+  | restoreState    -- self._tags, self.__now = tags, now
+  -- `startTest`
+  | ensureStarted   -- if not self._started: self._implied_start()
+  | emitInprogress  -- self.status(test_id=test.id(), test_status="inprogress", timestamp=self._now())
+  | pushTags        -- self._tags = TagContext(self._tags)
   | other
 deriving DecidableEq, Repr
 
@@ -142,5 +154,37 @@ def xInterp : List XStmt → St → Option St
   | _ :: r, s => xInterp r s
 
 def refStart : List XStmt := [.superCall, .resetTags, .clearStop, .resetClock, .setStarted]
+
+/-- `__init__`: the state before any run is started exists and is blank (`tags()` / `time()` may come before the first startTest) -/
+def refInit : List XStmt := [.superInit, .controlInit, .clearStarted, .resetTags, .resetClock]
+
+/-- `_implied_start` given the body of `startTestRun`: the state afterwards; `saved` = the locals `tags, now` -/
+def iInterp (start : List XStmt) : List XStmt → St → Option St → Option St
+  | [], s, _ => some s
+  | .saveState :: r, s, _ => iInterp start r s (some s)
+  | .callStartTestRun :: r, s, sv =>
+    match xInterp start s with
+    | some s' => iInterp start r s' sv
+    | none => none
+  | .restoreState :: r, _, some sv => iInterp start r sv (some sv)
+  | _ :: _, _, _ => none
+
+def refImpliedStart : List XStmt := [.saveState, .callStartTestRun, .restoreState]
+
+/-- `startTest(test)` with the converter in state `s` (run-level tags, last `time()` value): the state afterwards and the
+events emitted; `started` = `self._started` -/
+def tInterp (start implied : List XStmt) (started : Bool) (id : Nat) : List XStmt → St → Option (St × List Event)
+  | [], s => some (s, [])
+  | .ensureStarted :: r, s =>
+    if started then tInterp start implied started id r s
+    else match iInterp start implied s none with
+      | some s' => tInterp start implied started id r s'
+      | none => none
+  | .emitInprogress :: r, s =>
+    (tInterp start implied started id r s).map fun x => (x.1, { blank id (stamp s.now) with status := some .inprogress } :: x.2)
+  | .pushTags :: r, s => tInterp start implied started id r s        -- a child context: the run-level tags stay in force
+  | _ :: _, _ => none
+
+def refStartTest : List XStmt := [.ensureStarted, .emitInprogress, .pushTags]
 
 end TTV.ConvertSrc
